@@ -557,7 +557,12 @@ def specStep (s : SS) (line : String) : SS × String :=
     let ws := words op
     let ow := words obs
     let s := { s with viol := none }
-    if obs.startsWith "panic" || obs.startsWith "<no-observation" then
+    if obs.startsWith "blocked" then
+      let sig := if kv ow "in" == some "cancel" then "C14/cancel-blocked Cancel did not return: the owner hangs at: "
+        else if kv ow "in" == some "expiry" then "C14/timer-lost the expiry goroutines are stuck (timers can never fire again) at: "
+        else "C14/op-blocked the operation never completed: "
+      (s, "VIOLATION " ++ sig ++ op)
+    else if obs.startsWith "panic" || obs.startsWith "<no-observation" then
       (s, "VIOLATION C14/panic-escaped a panic left the timer manager / the consumer died at: " ++ op)
     else if ws.head? == some "reset" then
       let svc := (kvNat ws "svc").getD 0 == 1
